@@ -131,6 +131,17 @@ impl<'de, R: Reader<'de>> Parser<R> {
     // fix_position only rewrites the position of an error (unit `errors`)
     #[verifier::external_body]
     pub fn fix_position(&self, err: Error) -> (e: Error) { unimplemented!() }
+    // the NON-validating skipper (not called by the code under contract here; present so that a change that swaps it in
+    // for the validating one is decided, not undecided): what unit `unchecked` proves about it — it equals skip_one
+    // on a well-formed value in a well-formed context, and nothing is known otherwise
+    #[verifier::external_body]
+    pub fn skip_one_unchecked(&mut self) -> (res: Result<(&'de [u8], ParseStatus)>)
+        requires old(self).pinv(),
+        ensures final(self).pinv(), final(self).same_doc(old(self)), final(self).read.idx() >= old(self).read.idx(),
+            value_end(old(self).read.data(), old(self).read.idx() as int).is_some()
+                && follow_ok(old(self).read.data(), value_end(old(self).read.data(), old(self).read.idx() as int).unwrap())
+                ==> res.is_ok() && final(self).read.idx() == value_end(old(self).read.data(), old(self).read.idx() as int).unwrap(),
+    { unimplemented!() }
     #[verifier::external_body]
     pub fn parse_str<'own>(&mut self, buf: &'own mut Vec<u8>) -> (res: Result<Reference<'de, 'own, str>>)
         requires old(self).pinv(),
@@ -431,11 +442,34 @@ pub trait Deserialize<'de>: Sized {
     /// where this type's deserializer stops on the text s when started at 0 (uninterpreted per type)
     spec fn consumed(s: Seq<u8>) -> int;
     fn deserialize<R: Reader<'de>>(d: &mut Deserializer<R>) -> (r: Result<Self>)
-        requires old(d).parser.pinv(), old(d).parser.read.idx() == 0,
+        requires old(d).parser.pinv(),
         ensures final(d).parser.pinv(), final(d).parser.same_doc(&old(d).parser),
-            r.is_ok() ==> final(d).parser.read.idx() == Self::consumed(old(d).parser.read.data());
+            (r.is_ok() && old(d).parser.read.idx() == 0) ==> final(d).parser.read.idx() == Self::consumed(old(d).parser.read.data());
+}
+impl<'de, R: Reader<'de>> Parser<R> {
+    // proved for the real function in unit `strings`
+    #[verifier::external_body]
+    pub fn check_invalid_utf8(&mut self, allowed: bool) -> (res: Result<bool>)
+        requires old(self).pinv(),
+        ensures final(self).pinv(), final(self).same_doc(old(self)), final(self).same_cache(old(self)), final(self).read.idx() == old(self).read.idx(),
+            old(self).utf8_clean() ==> res.is_ok() && !res.unwrap() && final(self).utf8_clean(),
+            !old(self).utf8_clean() && !allowed ==> res.is_err(),
+            !old(self).utf8_clean() && allowed ==> res.is_ok() && res.unwrap(),
+    { unimplemented!() }
 }
 impl<'de, R: Reader<'de>> Deserializer<R> {
+//@extract file=src/serde/de.rs impl="Deserializer<R>" fn=deserialize
+//@subst /T: de::Deserialize<'de>,/ => T: Deserialize<'de>,
+//@subst /de::Deserialize::deserialize\((&mut \*)?self\)/ => T::deserialize(&mut *self)
+//@sig
+        requires old(self).parser.pinv(),
+        ensures final(self).parser.pinv(), final(self).parser.same_doc(&old(self).parser),
+            // C02, UTF-8 half (found F22): whatever T's deserializer did — skipped strings and DOM-parsed strings are not
+            // validated one by one — a document is handed out in the default configuration only if no invalid UTF-8 lies
+            // in what has been consumed
+            (res.is_ok() && !old(self).parser.cfg.utf8_lossy) ==> final(self).parser.utf8_clean(),
+//@end
+
     #[verifier::external_body]
     pub fn new(read: R) -> (d: Self)
         requires read.wf(), read.idx() == 0, read.data().len() <= 0x3fff_ffff_ffff_ffff,
